@@ -73,7 +73,8 @@ def run(ctx):
     ctx.check(len(market_callees) == 2, "reject", "market-placers", ctx.loc(place), "place_order dispatches market orders (price == sentinel) to 2 functions",
               "found %d market-placement callees" % len(market_callees))
     for f in market_callees:
-        q = m.q(f)
+        q = m.qi(f)       # inlined view: a private helper that writes status + end time is seen through
+        f = q.fn
         s = m.w.effects.summary(f)
         off = []
         for blk in f.body.blocks:
